@@ -340,6 +340,50 @@ static int validate_type(const char *function, vnadata_internal_t *vdip,
 }
 
 /*
+ * validate_arguments: check the arguments of vnadata_resize/vnadata_init
+ *   @function: name of user-called function
+ *   @vdp: pointer to vnacal_data_t structure
+ *   @type: new network parameter data type
+ *   @rows: new number of rows
+ *   @columns: new number of columns
+ *   @frequencies: new number of frequencies
+ */
+static int validate_arguments(const char *function, vnadata_t *vdp,
+	vnadata_parameter_type_t type, int rows, int columns, int frequencies)
+{
+    vnadata_internal_t *vdip;
+
+    if (vdp == NULL) {
+	errno = EINVAL;
+	return -1;
+    }
+    vdip = VDP_TO_VDIP(vdp);
+    if (vdip->vdi_magic != VDI_MAGIC) {
+	errno = EINVAL;
+	return -1;
+    }
+    if (rows < 0) {
+	_vnadata_error(vdip, VNAERR_USAGE,
+	    "%s: rows cannot be negative: %d", function, rows);
+	return -1;
+    }
+    if (columns < 0) {
+	_vnadata_error(vdip, VNAERR_USAGE,
+	    "%s: columns cannot be negative: %d", function, columns);
+	return -1;
+    }
+    if (frequencies < 0) {
+	_vnadata_error(vdip, VNAERR_USAGE,
+	    "%s: frequencies cannot be negative: %d", function, frequencies);
+	return -1;
+    }
+    if (validate_type(function, vdip, type, rows, columns) == -1) {
+	return -1;
+    }
+    return 0;
+}
+
+/*
  * vnadata_resize: redefine the dimensions and parameter type
  *   @vdp: pointer to vnacal_data_t structure
  *   @type: new network parameter data type
@@ -366,33 +410,11 @@ int vnadata_resize(vnadata_t *vdp, vnadata_parameter_type_t type,
     /*
      * Check parameters
      */
-    if (vdp == NULL) {
-	errno = EINVAL;
+    if (validate_arguments(__func__, vdp, type, rows, columns,
+		frequencies) == -1) {
 	return -1;
     }
     vdip = VDP_TO_VDIP(vdp);
-    if (vdip->vdi_magic != VDI_MAGIC) {
-	errno = EINVAL;
-	return -1;
-    }
-    if (rows < 0) {
-	_vnadata_error(vdip, VNAERR_USAGE,
-	    "vnadata_resize: rows cannot be negative: %d", rows);
-	return -1;
-    }
-    if (columns < 0) {
-	_vnadata_error(vdip, VNAERR_USAGE,
-	    "vnadata_resize: columns cannot be negative: %d", columns);
-	return -1;
-    }
-    if (frequencies < 0) {
-	_vnadata_error(vdip, VNAERR_USAGE,
-	    "vnadata_resize: frequencies cannot be negative: %d", frequencies);
-	return -1;
-    }
-    if (validate_type(__func__, vdip, type, rows, columns) == -1) {
-	return -1;
-    }
     old_ports = MAX(vdp->vd_rows, vdp->vd_columns);
     new_ports = MAX(rows, columns);
     old_cells = vdp->vd_rows * vdp->vd_columns;
@@ -488,6 +510,14 @@ int vnadata_resize(vnadata_t *vdp, vnadata_parameter_type_t type,
 int vnadata_init(vnadata_t *vdp, vnadata_parameter_type_t type,
 	int rows, int columns, int frequencies)
 {
+    /*
+     * Validate before touching the object so that a refused call
+     * leaves it as it was.
+     */
+    if (validate_arguments(__func__, vdp, type, rows, columns,
+		frequencies) == -1) {
+	return -1;
+    }
     (void)vnadata_resize(vdp, VPT_UNDEF, 0, 0, 0);
     (void)vnadata_set_all_z0(vdp, VNADATA_DEFAULT_Z0);
     return vnadata_resize(vdp, type, rows, columns, frequencies);
